@@ -31,7 +31,7 @@ CODES = {
     "6.00": 192,
     "7.01": 225,
 }
-HANDLERS = ["fast", "d0.05", "d0.099", "d0.101", "d0.5", "err404", "own-noresp"]
+HANDLERS = ["fast", "d0.05", "d0.099", "d0.101", "d0.5", "err404", "own-noresp", "fwd"]
 NORESP = [None, 0, 2, 8, 16, 26]
 
 
@@ -40,9 +40,9 @@ def make_site(net):
     from aiocoap import resource
 
     class Res(resource.Resource):
-        def __init__(self, name, delay=0.0, code=None, own_noresp=None):
+        def __init__(self, name, delay=0.0, code=None, own_noresp=None, forwarded=False):
             super().__init__()
-            self.name, self.delay, self.code, self.own_noresp = name, delay, code, own_noresp
+            self.name, self.delay, self.code, self.own_noresp, self.forwarded = name, delay, code, own_noresp, forwarded
 
         async def needs_blockwise_assembly(self, request):
             return False
@@ -56,6 +56,12 @@ def make_site(net):
                 m.code = aiocoap.numbers.codes.Code(self.code)
             if self.own_noresp is not None:
                 m.opt.no_response = self.own_noresp
+            if self.forwarded:
+                # a response passed on from upstream (as a forward proxy does): it still knows the confirmable request
+                # it answered there, which has no bearing on how *this* request is to be answered
+                up = aiocoap.Message(code=aiocoap.GET)
+                up.mtype = aiocoap.numbers.types.Type.CON
+                m.request = up
             return m
 
         render_get = render_post = _go
@@ -67,6 +73,7 @@ def make_site(net):
     site.add_resource(["d0.101"], Res("d0.101", 0.101))
     site.add_resource(["d0.5"], Res("d0.5", 0.5))
     site.add_resource(["err404"], Res("err404", 0.0, code=R.NOT_FOUND))
+    site.add_resource(["fwd"], Res("fwd", 0.0, forwarded=True))
     site.add_resource(["own-noresp"], Res("own-noresp", 0.0, own_noresp=26))
     return site
 
